@@ -6,8 +6,7 @@ contract("shexer.utils.uri:longest_common_prefix",
     ensures=["uri1.startswith(result) and uri2.startswith(result)",
              "len(result) == len(uri1) or len(result) == len(uri2) or str_at(uri1, len(result)) != str_at(uri2, len(result))"],
     raises=[],
-    loops={0: {"invariant": ["uri1[:_i0] == uri2[:_i0]", "shortest <= len(uri1) and shortest <= len(uri2)",
-                             "shortest == len(uri1) or shortest == len(uri2)"]}},
+    loops={0: {"invariant": ["uri1[:_i0] == uri2[:_i0]"]}},
     props=["C17"], note="result is a common prefix and cannot be extended (maximality)")
 contract("shexer.utils.uri:longest_common_prefix@canary",
     params={"uri1": Str, "uri2": Str}, returns=Str,
